@@ -465,7 +465,11 @@ def check_prog_batch(engines, batch, tag, env=None):
     for o in range(norders):
         text = "".join(P.text() for P, _ in batch)
         plan = "".join(pl[o % len(pl)] for _, pl in batch)
+        import time as _t
+        t0 = _t.time()
         rc, lines, err = run_iface(engines, text, plan, f"{tag}_{o}", env)
+        if _t.time() - t0 > 30:
+            ck.log(f"slow harness run {tag}_{o} {engines}: {_t.time() - t0:.0f}s rc={rc} programs {[P.name for P, _ in batch]}")
         res = [l for l in lines if l[:2] in ("P ", "H ", "W ", "A ") and not l.startswith("H engines")]
         nexp = sum(nplan(pl[o % len(pl)]) for _, pl in batch)
         nexp += sum(pl[o % len(pl)].count("addrs\n") for _, pl in batch) * (len(engines) - 1)
